@@ -3,7 +3,7 @@ CONSTANTS
   c1 = c1  c2 = c2  c3 = c3  w1 = w1  w2 = w2  rp = rp  rb = rb
   NSlab = 3  Cap = 3  Q = 1  NPkt = 3
   Clients = {c1, c2}
-  Kinds <- KPortable
+  Kinds <- KMixedSmall
   Workers = {w1}
   PReaders = {rp}
   BReaders <- NoReaders
